@@ -57,6 +57,7 @@ def hitzer_spec(d):
 @rule("C07.dispatch", props=["C07"], min_instances=9, mutants=[
     ("selector sends d = 6 to the closed forms", ("codegen", "    if alg.d < 6:\n        num, denom = codegen_hitzer_inv(y, symbolic=True)", "    if alg.d < 7:\n        num, denom = codegen_hitzer_inv(y, symbolic=True)")),
     ("closed form for d = 5 dropped", ("codegen", "    elif d == 5:\n        xconj = x.conjugate()", "    elif d == 55:\n        xconj = x.conjugate()")),
+    ("selector sends d = 5 to the iterative scheme", ("codegen", "    if alg.d < 6:\n        num, denom = codegen_hitzer_inv(y, symbolic=True)", "    if alg.d < 5:\n        num, denom = codegen_hitzer_inv(y, symbolic=True)")),
 ], rewrites=[
     ("selector as d <= 5", ("codegen", "    if alg.d < 6:\n        num, denom = codegen_hitzer_inv(y, symbolic=True)", "    if alg.d <= 5:\n        num, denom = codegen_hitzer_inv(y, symbolic=True)")),
 ])
@@ -65,6 +66,8 @@ def dispatch(ctx):
     repo = ctx.repo
     q = "codegen.codegen_inv"
     fn = ctx.func(q)
+    # does the iterative routine perform a true division (n * s / i)?  then its results are exact only to rounding
+    divides = any(isinstance(n, ast.BinOp) and isinstance(n.op, ast.Div) for n in ast.walk(ctx.func("codegen.codegen_shirokov_inv")))
     for d in range(0, 9):
         c = f"{q}#d={d}"
         it = tree_interp(repo, d)
@@ -78,8 +81,12 @@ def dispatch(ctx):
         if out[0] == "raise":
             ctx.violation(c, f"x.inv() in {d} dimensions raises {out[1]}: the selector sends this dimension to a routine "
                              f"that does not handle it", fn)
+        elif d <= 5 and called and divides:
+            ctx.violation(c, f"x.inv() in {d} dimensions is sent to the iterative scheme, which divides by its step number (float constants in "
+                             f"the generated code): over exact coefficient types x*x.inv() is then 1 only to rounding - the property asks for the "
+                             f"closed forms, and exactness, in up to five dimensions", fn)
         elif d <= 5 and called:
-            ctx.ok(c, fn, routine="iterative (Shirokov)")
+            ctx.ok(c, fn, routine="iterative (Shirokov), which performs no true division")
         else:
             ctx.ok(c, fn, routine="iterative (Shirokov)" if called else "closed form (Hitzer)")
 
